@@ -554,6 +554,16 @@ func (m *c42Machine) fail(format string, a ...any) {
 	m.rt.Fatalf("%s\ndatacap=%d bump=%d gasTip=%d\ntrace:\n%s", fmt.Sprintf(format, a...), m.datacap, m.bump, m.gasTip, m.traceString())
 }
 
+// guard turns a panic of the pool into a reported failure with the history.
+func (m *c42Machine) guard(what string, fn func()) {
+	defer func() {
+		if r := recover(); r != nil {
+			m.fail("panic in %s: %v", what, r)
+		}
+	}()
+	fn()
+}
+
 func (m *c42Machine) basefee() *uint256.Int {
 	return uint256.MustFromBig(m.chain.head.header.BaseFee) // GasUsed == target, so the next base fee is the header's
 }
@@ -1160,7 +1170,12 @@ func c42ErrClass(err error) string {
 // submit pushes one transaction through the pool's admission path: the stateless
 // checks on the network form, then AddPooledTx with the pre-computed cells (this is
 // Add minus the KZG cell computation/verification).
-func (m *c42Machine) submit(x *c42Tx, viaAdd bool) error {
+func (m *c42Machine) submit(x *c42Tx, viaAdd bool) (err error) {
+	defer func() {
+		if r := recover(); r != nil {
+			m.fail("panic while submitting %s: %v; pool before: %s", x, r, m.lists())
+		}
+	}()
 	if viaAdd {
 		return m.pool.Add([]*types.Transaction{x.full}, true)[0]
 	}
@@ -1313,7 +1328,7 @@ func (m *c42Machine) actSetGasTip() {
 	tip := rapid.SampledFrom([]uint64{1, 1, 2, 5, 10}).Draw(m.rt, "gasTip")
 	pre := m.lists()
 	old := m.gasTip
-	m.pool.SetGasTip(new(big.Int).SetUint64(tip))
+	m.guard("SetGasTip", func() { m.pool.SetGasTip(new(big.Int).SetUint64(tip)) })
 	m.gasTip = tip
 	post := m.lists()
 	m.tracef("setGasTip %d; pool %s", tip, post)
@@ -1421,7 +1436,7 @@ func (m *c42Machine) applyReset(oldB, newB *c42Block, label string) {
 		}
 	}
 	m.chain.head = newB
-	m.pool.Reset(oldB.header, newB.header)
+	m.guard(label, func() { m.pool.Reset(oldB.header, newB.header) })
 	// finalized entries leave the model's retention set
 	final := m.chain.final.header.Number.Uint64()
 	for h := range m.limboSet {
